@@ -16,9 +16,10 @@ static const std::map<std::string, int> kPool = {
     {"m1", 7}, {"m1x", 3}, {"m1v", 5}, {"m2", 21}, {"m2i", 21}, {"m3", 24}};
 
 static vf::json gen_case(vf::Choice& ch, int size) {
-    static const char* pols[] = {"dbg", "rel_ind", "rel_map"};
+    static const char* pols[] = {"dbg", "rel_ind", "rel_map", "rel",
+                                 "dbg_ind"};
     vf::json c;
-    c["policy"] = pols[ch.draw(3)];
+    c["policy"] = pols[ch.draw(5)];
     c["style"] = int(ch.draw(4));
     vf::json defs = vf::json::object();
     for (auto& [name, n] : kPool) {
